@@ -15,6 +15,7 @@
 package blockfetch
 
 import (
+	"bytes"
 	"context"
 	"errors"
 	"fmt"
@@ -426,32 +427,55 @@ func (c *Client) GetBlock(point pcommon.Point) (ledger.Block, error) {
 		c.releaseBusy(token)
 		return nil, protocol.ErrProtocolShuttingDown
 	}
-	// Wait for block
+	// Collect the whole batch. The server decides how many blocks it sends
+	// before BatchDone, so keep receiving until the batch ends: the message
+	// handlers hand over each block and the BatchDone signal on unbuffered
+	// channels and would otherwise block the protocol forever.
 	var block ledger.Block
-	select {
-	case b, ok := <-c.blockChan:
-		if !ok {
+	var blockCount int
+	for batchDone := false; !batchDone; {
+		select {
+		case b, ok := <-c.blockChan:
+			if !ok {
+				c.releaseBusy(token)
+				return nil, protocol.ErrProtocolShuttingDown
+			}
+			if blockCount == 0 {
+				block = b
+			}
+			blockCount++
+		case _, ok := <-c.batchDoneChan:
+			// handleBatchDone signals batchDoneChan in GetBlock mode instead
+			// of unlocking, so the protocol state machine has completed the
+			// batch (back to Idle state) once we get here.
+			if !ok {
+				c.releaseBusy(token)
+				return nil, protocol.ErrProtocolShuttingDown
+			}
+			batchDone = true
+		case <-protocolDone:
 			c.releaseBusy(token)
 			return nil, protocol.ErrProtocolShuttingDown
 		}
-		block = b
-	case <-protocolDone:
-		c.releaseBusy(token)
-		return nil, protocol.ErrProtocolShuttingDown
 	}
-	// Wait for BatchDone before returning to ensure the protocol state machine
-	// completes the batch properly (transitions back to Idle state).
-	// handleBatchDone signals batchDoneChan in GetBlock mode instead of unlocking.
-	select {
-	case <-c.batchDoneChan:
-		// BatchDone was processed successfully
-		c.releaseBusy(token)
-		return block, nil
-	case <-protocolDone:
-		// Shutdown while waiting for BatchDone
-		c.releaseBusy(token)
-		return nil, protocol.ErrProtocolShuttingDown
+	c.releaseBusy(token)
+	// We asked for the range [point, point], which is exactly one block
+	if blockCount != 1 {
+		return nil, fmt.Errorf(
+			"%s: expected exactly one block in batch, got %d",
+			ProtocolName,
+			blockCount,
+		)
 	}
+	if !bytes.Equal(block.Hash().Bytes(), point.Hash) {
+		return nil, fmt.Errorf(
+			"%s: received block %s does not match requested block %x",
+			ProtocolName,
+			block.Hash(),
+			point.Hash,
+		)
+	}
+	return block, nil
 }
 
 // messageHandler handles incoming protocol messages for the client.
@@ -612,7 +636,11 @@ func (c *Client) handleBlock(msgGeneric protocol.Message) error {
 			return errors.New("received block-fetch Block message but no callback function is defined")
 		}
 	} else {
-		c.blockChan <- block
+		select {
+		case c.blockChan <- block:
+		case <-c.DoneChan():
+			return protocol.ErrProtocolShuttingDown
+		}
 	}
 	return nil
 }
